@@ -78,7 +78,12 @@ def main(argv):
     if fatal:
         rep.ob("framework", "run", False, fatal)
     # floors
-    info = props.REGISTRY[prop]
+    info = dict(props.REGISTRY[prop])
+    try:
+        info["configs_used"] = sorted(set(getattr(env, "used", [])) | ({"default", "all-features"} if prop in ("C16", "C17") else set()))
+        info["non_additive_bodies"] = env.non_additive() if tier == "quick" else []
+    except Exception:
+        pass
     counts = {}
     for o in rep.obls:
         counts[o["rule"]] = counts.get(o["rule"], 0) + 1
@@ -163,6 +168,7 @@ def write_evidence(prop, tier, seed, rep, info, viol, known_hit, wall):
             "rules": rules,
             "known_findings_reported": [k["what"] for _, k in known_hit],
             "configs": info.get("configs_used", []),
+            "bodies_only_without_a_feature": info.get("non_additive_bodies", []),
             "exhaustive": True,
         },
         "assumptions": TRUSTED,
